@@ -145,6 +145,8 @@ func WSetups(names []string, maxSize int) [][]ops.Op {
 				ops.Op{K: "put", P: w + "/x_", C: ""},
 				ops.Op{K: "mkdir", P: w + "/d"},
 				ops.Op{K: "put", P: w + "/d/x", C: "deep " + names[i]},
+				ops.Op{K: "mkdir", P: w + "/d/ä e"},
+				ops.Op{K: "put", P: w + "/d/ä e/y.z", C: "deeper " + names[i]},
 			)
 		}
 		out = append(out, setup)
